@@ -27,7 +27,7 @@ ASSUMPTIONS = [
     "an out-of-range enum index inside a skipped field may be ignored or raise (A4)",
     "layouts are spec-valid: block byte sizes are exact, counts non-zero except the terminator",
 ]
-N = {"quick": 6400, "thorough": 96000}
+N = {"quick": 16000, "thorough": 160000}
 TIME_LIMIT = {"quick": 45, "thorough": 560}
 SHARDS = 16
 REACH = {
